@@ -57,6 +57,22 @@ open ZygoVerif.Core ZygoVerif.VM ZygoVerif.TailSpec ZygoVerif.Tail ZygoVerif.Tai
 function's own name. -/
 def bodyCtx (f : String) (known : List (String × Nat)) : Ctx := ⟨true, 0, f, known⟩
 
+/-- What the generator emits for a self call in tail position (after fix C09-02): the guard,
+the operands, the tail sequence proper (`TailVM.tailSeq`: `PrepareCall`, `RemoveScope × (k+1)`,
+`Goto 0`) and, behind the jump, the ordinary call the guard skips to. -/
+def selfTailCode (f : String) (args : List Expr) (k : Nat) (argcode : List Instr) : List Instr :=
+  [Instr.tailGuard f (argcode.length + k + 4)] ++ argcode ++ tailSeq f args.length k ++ [Instr.callExpr (.sym f) args]
+
+/-- the guard's `skip` is exactly the distance to the ordinary call -/
+theorem selfTailCode_skip (f : String) (args : List Expr) (k : Nat) (argcode : List Instr) :
+    (selfTailCode f args k argcode)[argcode.length + k + 4]? = some (Instr.callExpr (.sym f) args) := by
+  have hlen : ([Instr.tailGuard f (argcode.length + k + 4)] ++ argcode ++ tailSeq f args.length k).length
+      = argcode.length + k + 4 := by
+    simp [tailSeq]; omega
+  unfold selfTailCode
+  rw [List.getElem?_append_right (by omega), hlen]
+  simp
+
 /-- (b) The tail sequence pops exactly the scopes open at that point: those open when the
 enclosing form `e` was entered (`k0`), those crossed inside it (`k`), and the function scope.
 A self call in tail position is handled by the tail-call arm of `GenerateCallBySymbol` (under a
@@ -70,7 +86,7 @@ theorem tail_sequence_layout {isFn : Nat → Bool} {f : String} {kn : List (Stri
     (hc : compile isFn ⟨true, k0, f, kn⟩ e gs = .ok r) :
     ∃ gs1 : GS,
       (ArityOk ((kn.lookup f).bind fun t => gs1.fns[t]?) args.length = true →
-        ∃ argcode, Seg r.1.1 (argcode ++ tailSeq f args.length (k0 + k))) ∧
+        ∃ argcode, Seg r.1.1 (selfTailCode f args (k0 + k) argcode)) ∧
       (ArityOk ((kn.lookup f).bind fun t => gs1.fns[t]?) args.length = false →
         Seg r.1.1 [Instr.callExpr (.sym f) args]) := by
   obtain ⟨gs1, r1, h1, hseg⟩ := tailAt_emits hpos hc
@@ -79,7 +95,7 @@ theorem tail_sequence_layout {isFn : Nat → Bool} {f : String} {kn : List (Stri
     obtain ⟨argcode, hcode⟩ := self_call_tail h1 harity
     refine ⟨argcode, ?_⟩
     rw [hcode] at hseg
-    simpa [tailSeq, List.append_assoc] using hseg
+    simpa [selfTailCode, tailSeq, List.append_assoc] using hseg
   · intro harity
     rw [self_call_wrong_arity h1 harity] at hseg
     exact hseg
@@ -92,7 +108,7 @@ theorem tail_position_gets_tail_sequence {isFn : Nat → Bool} {f : String} {kn 
     (hpos : TailAt k (.begin_ body) (.call (.sym f) args))
     (harity : ∀ gs1 : GS, ArityOk ((kn.lookup f).bind fun t => gs1.fns[t]?) args.length = true)
     (hc : compileBegin isFn (bodyCtx f kn) body gs = .ok r) :
-    ∃ argcode, Seg r.1.1 (argcode ++ tailSeq f args.length k) := by
+    ∃ argcode, Seg r.1.1 (selfTailCode f args k argcode) := by
   have hne : body ≠ [] := by
     intro h; subst h
     cases hpos with
@@ -130,7 +146,7 @@ theorem self_call_dichotomy {isFn : Nat → Bool} {f : String} {kn : List (Strin
     (hpos : Inline (.begin_ body) (.call (.sym f) args))
     (harity : ∀ gs1 : GS, ArityOk ((kn.lookup f).bind fun t => gs1.fns[t]?) args.length = true)
     (hc : compileBegin isFn (bodyCtx f kn) body gs = .ok r) :
-    (∃ k argcode, TailAt k (.begin_ body) (.call (.sym f) args) ∧ Seg r.1.1 (argcode ++ tailSeq f args.length k)) ∨
+    (∃ k argcode, TailAt k (.begin_ body) (.call (.sym f) args) ∧ Seg r.1.1 (selfTailCode f args k argcode)) ∨
     (NonTailAt (.begin_ body) (.call (.sym f) args) ∧ Seg r.1.1 [Instr.callExpr (.sym f) args]) := by
   rcases inline_dichotomy hpos with ⟨k, hk⟩ | hn
   · obtain ⟨argcode, h⟩ := tail_position_gets_tail_sequence hk harity hc
@@ -146,6 +162,8 @@ def exBody : List Expr :=
     (.let_ false [("x", .int 1)]
       [.newScope [.sym "x", .and_ [.bool true, .call (.sym "f") [.call (.sym "-") [.sym "n", .int 1], .call (.sym "+") [.sym "a", .sym "n"]]]]])]
 
+def exArgs : List Expr := [.call (.sym "-") [.sym "n", .int 1], .call (.sym "+") [.sym "a", .sym "n"]]
+
 def exCall : Expr := .call (.sym "f") [.call (.sym "-") [.sym "n", .int 1], .call (.sym "+") [.sym "a", .sym "n"]]
 
 /-- the self call of `exBody` is in tail position under two scopes -/
@@ -158,7 +176,7 @@ example : TailAt 2 (.begin_ exBody) exCall :=
 
 /-- and the generator accepts the body: the hypotheses of the theorems above are satisfiable. -/
 example : ∃ r, compileBegin (fun _ => false) (bodyCtx "f" []) exBody ⟨[], [], [], []⟩ = .ok r ∧
-    r.1.1.length = 23 ∧ r.1.1 = r.1.1.take 16 ++ tailSeq "f" 2 2 ++ r.1.1.drop 21 := ⟨_, rfl, by decide, rfl⟩
+    r.1.1.length = 25 ∧ r.1.1 = r.1.1.take 14 ++ selfTailCode "f" exArgs 2 (r.1.1.drop 15 |>.take 2) ++ r.1.1.drop 23 := ⟨_, rfl, by decide, rfl⟩
 
 /-- `(cond (f (- n 1)) 1 2)`: the cond test is reached by a non-tail step -/
 example : NonTailAt (.begin_ [.cond [(.call (.sym "f") [.sym "n"], .int 1)] (.int 2)]) (.call (.sym "f") [.sym "n"]) :=
@@ -281,9 +299,9 @@ open ZygoVerif.LegacyTail in
 operand pushed) satisfies every hypothesis of the segment lemma: `np = 1` operand above `d = 0`
 slots, `k = 0` extra scopes, the function scope above `L = [global]`, one return address. -/
 example : TailSite atTailCall "f" 1 0 1 0 1 [some 0] atTailCall.data where
-  code := ⟨3, [.removeScope, .ret], ⟨rfl, rfl, [.addFuncScope 2, .popStackPutEnv "n", .envToStack "n"], [], rfl, rfl⟩⟩
+  code := ⟨4, [.callExpr (.sym "f") [.sym "n"], .removeScope, .ret], ⟨rfl, rfl, [.addFuncScope 2, .popStackPutEnv "n", .tailGuard "f" 5, .envToStack "n"], [], rfl, rfl⟩⟩
   prep := fun n => by
-    have := exec_prepareCall_fixed n atTailCall "f" 1 0 2 (by decide) (by decide) rfl
+    have := exec_prepareCall_fixed n atTailCall "f" 1 rfl
     simpa using this
   operands := rfl
   scopes := ⟨[some 1], rfl, rfl⟩
